@@ -18,7 +18,8 @@ _UNION_THOROUGH = (_UNION_QUICK + c02_configs([(3, 1, [0, 1]), (1, 3, [0, 1]), (
           + c02_configs([(1, 2, [0, 1]), (2, 1, [0, 2])], (0,), MAPS=0)
           + [AB(2, 1, [0, 1], OP=0, PREFILL=4), AB(1, 2, [0, 1], OP=0, PREFILL=4), AB(2, 2, [0, 1], OP=0, PREFILL=2)])
 _ISECT_QUICK = (c02_configs(_QUICK_SHAPES, (3, 2)) + c02_configs([(2, 1, [0, 1])], (2, 3), MAPS=0)
-          + c02_configs([(2, 2, [0, 1]), (2, 2, [0, 0, 1])], (2, 3), ALIAS=1))       # Intersection(a, copy of a)
+          + c02_configs([(2, 2, [0, 1]), (2, 2, [0, 0, 1])], (2, 3), ALIAS=1)        # Intersection(a, copy of a)
+          + c02_configs([(1, 1, [0, 1, 1, 1]), (2, 1, [0, 1, 1]), (1, 2, [0, 1, 1])], (3, 2)))   # fourth round: several unary symbols, some of them only in one operand (10, 16, 16 bits)
 _ISECT_THOROUGH = (_ISECT_QUICK + c02_configs([(3, 1, [0, 1]), (1, 3, [0, 1])], (2, 3))
           + c02_configs([(1, 2, [0, 1]), (2, 1, [0, 2])], (2, 3), MAPS=0)
           + c02_configs([(2, 2, [0, 0, 1]), (2, 1, [0, 1, 2])], (2, 3), **_BIG))
@@ -27,7 +28,7 @@ CHECKS = {
  'C02': {
   'level': 'model_checking',
   'explanation': 'ExplicitTreeAut::Union, UnionDisjointStates, Intersection and IntersectionBU executed symbolically on every pair of automata drawn from the rule universes of the configuration (presence bit per rule, finality bit per state; for Union additionally caller maps that are empty, absent (nullptr) or pre-filled for one symbolically chosen state of either operand with a symbolic target number; ALIAS configurations pass an automaton and a storage-sharing copy of it as the two operands). The result is decoded by iterating it, never through its state numbers (how the states of a union / product are numbered is not part of the contract): through the StateToStateMap / ProductTranslMap the library reports (a rule or final state over a state that no map entry names is a violation: the maps name every state of the result), or - nullptr maps, UnionDisjointStates - through a slot table of the distinct state numbers (harness/common/decode_free.h). Its language is compared with L(A) u L(B) / L(A) n L(B) by an independent macro-state inclusion oracle in both directions (against the operands and against a mask-level disjoint union / full product); the maps must have operand states (pairs) as keys only, keep pre-entered entries, name every state of the result by exactly one operand state / pair, and every rule and final state of the result must be the image of a rule / final state of the operand (union) resp. of the product (intersection) whose states name it (which rules must be present is decided by the language comparison, not rule by rule; the rule-for-rule equality with the complete image and the dense numbering of the current implementation are kept under STRICT_IMPL, never defined); both operands are re-read after the call and must be unchanged.',
-  'bounds': {'quick': 'pairs (A,B): 1+1 states over {a/0,b/0,f/1}; 2+1, 1+2, 2+2 over {a/0,f/1}; 2+1, 1+2 over {a/0,g/2}; all rule subsets and final sets (8..16 free bits per query), all 4 operations; nullptr maps on 2+1 {a,f}; Union with pre-filled maps (any one state of A and/or of B pre-entered with any target < 4 on 1+1, < 2 on 2+1 / 1+2); Union / Intersection / IntersectionBU of a 2-state automaton over {a/0,f/1}, {a/0,b/0,f/1} with a copy of itself',
+  'bounds': {'quick': 'pairs (A,B): 1+1 states over {a/0,b/0,f/1}; 2+1, 1+2, 2+2 over {a/0,f/1}; 2+1, 1+2 over {a/0,g/2}; all rule subsets and final sets (8..16 free bits per query), all 4 operations; the intersections also on 1+1 over {a/0,f/1,h/1,k/1} and 2+1, 1+2 over {a/0,f/1,h/1} (several non-nullary symbols, some only in one operand; fourth round); nullptr maps on 2+1 {a,f}; Union with pre-filled maps (any one state of A and/or of B pre-entered with any target < 4 on 1+1, < 2 on 2+1 / 1+2); Union / Intersection / IntersectionBU of a 2-state automaton over {a/0,f/1}, {a/0,b/0,f/1} with a copy of itself',
              'thorough': 'as quick plus 3+1, 1+3 over {a/0,f/1}; 2+2 over {a/0,b/0,f/1}; 2+1 over {a/0,f/1,g/2} (18..20 bits); more nullptr-map and pre-filled (targets < 4 on 2+1 / 1+2, < 2 on 2+2) universes'},
   'outside': 'more than 4 states in total, rank > 2, more than 3 symbols; pre-filled maps with more than one pre-entered state per operand or targets >= 4; pre-filled ProductTranslMap for the intersections (documented as pure out-parameter); UnionDisjointStates on operands whose state sets overlap (documented as undefined); operands sharing storage with each other (see C11); the same map object passed for both operands',
   'assumptions': ['Union with pre-filled maps: the caller does not pre-enter the same target number for a state of A and a state of B (that would ask for a merge)'],
